@@ -389,7 +389,9 @@ class SmallSet {
   template <class K, typename std::enable_if<!std::is_same<T, K>::value && has_is_transparent<Compare>::value,
                                              bool>::type = true>
   size_type count(const K &k) const {
-    return contains(k);
+    // A key of another type may be equivalent to several elements (as for std::set::count)
+    return isSmall() ? static_cast<size_type>(std::count_if(_vec.begin(), _vec.end(), FindFunctor<K>(key_comp(), k)))
+                     : static_cast<size_type>(_set.count(k));
   }
 
   size_type erase(const_reference v) {
